@@ -387,7 +387,27 @@ class C02:
                 ctx.bad("R02.5", file, "DataAdapter.values", "return list(self._aoef_store.values())",
                         f"values() does not return the store in insertion order: {show(r.term)[:80]}; a sequence may then "
                         f"be listed before its parent", r.lineno)
-        if good:
+        # path-sensitive: with entries in the store the list is what is returned (None / empty only for an empty store)
+        from sa.peval import peval as _pe, truth as _tr
+        st_ = store_attr("_aoef_store")
+        def dec_(t_, nonempty):
+            lv_ = ("call", ("builtin", "list"), (vals,), ())
+            asg = {st_: nonempty, ("not", st_): not nonempty}
+            for c_ in (st_, vals, lv_):
+                asg[("call", ("builtin", "len"), (c_,), ())] = 2 if nonempty else 0
+                asg[("not", c_)] = not nonempty
+            # the containers themselves stand for their truth value only inside conditions: decided through len / not above and
+            # through the bare name as a condition
+            t_ = subst_cond(t_, {vals: nonempty, lv_: nonempty})
+            return _tr(_pe(t_, asg))
+        live_nonempty = [r for r in s.returns if dec_(r.live, True) is not False]
+        if good and live_nonempty and all(r.term != NONE and r.term != ("list", ()) for r in live_nonempty) and all(dec_(r.live, True) is True for r in live_nonempty):
+            ctx.ok("R02.5", site, "values() == list(store.values()) (insertion order, no sort/set), returned whenever the store has entries")
+        elif good:
+            ctx.bad("R02.5", file, "DataAdapter.values", "values() of a non-empty store",
+                    f"with entries in the store values() returns {[show(r.term)[:30] for r in live_nonempty] or 'nothing'}: the top-level "
+                    f"list of every kind that has objects is dropped from the document, so every reference to them is undefined", s.node.lineno)
+        if False:
             ctx.ok("R02.5", site, "values() == list(store.values()) (insertion order, no sort/set)")
         # subclasses must not override to_aoef / get_id / values
         for leaf in self.ao.leaves.values():
@@ -450,6 +470,24 @@ class C02:
                                 f"lookup table {hit} is written outside DataAdapter.{{__init__,to_aoef,to_soundevent,get_id}}: "
                                 f"objects can enter or leave the document without going through registration", e.lineno)
         return n
+
+
+
+def subst_cond(t, truth_of):
+    """replace a container term by its truth value where it stands as a condition (operand of and / or / not, test of a conditional)"""
+    if not isinstance(t, tuple) or not t:
+        return t
+    def cond(x):
+        if x in truth_of:
+            return ("const", truth_of[x])
+        return subst_cond(x, truth_of)
+    if t[0] in ("and", "or"):
+        return (t[0], tuple(cond(x) for x in t[1]))
+    if t[0] == "not":
+        return ("not", cond(t[1]))
+    if t[0] == "ite":
+        return ("ite", cond(t[1]), subst_cond(t[2], truth_of), subst_cond(t[3], truth_of))
+    return t if t not in truth_of else ("const", truth_of[t])
 
 
 def check_own_list_uniqueness(ctx: Ctx, c):
